@@ -13,7 +13,9 @@ mod out;
 mod payload;
 mod report;
 mod rng;
+mod sendsync;
 mod seq;
+mod solo;
 mod wake;
 
 use std::collections::HashMap;
@@ -190,6 +192,18 @@ fn main() {
             };
             shard.rule = "run = one concurrent scenario (seeded configuration, scripts and stall plan) followed by the quiescent probe, a seeded teardown and the offline checkers; distinct = hash(configuration shape, per-event thread/op/result and number of overlapping operations of other threads); non-trivial = family rule (steady/view: ring wrapped and a send overlapped a receive; wrap-slow-clone: wrapped and another operation completed while a clone/closure was in progress; last-sender: the end was reported and sends overlapped receives; add-stream: the call overlapped a send (shared: and a sibling receive); remove-stream: a send was refused before the removal; handle-churn: a clone/drop overlapped traffic of another thread; quiesce: send/receive overlap; teardown: ring wrapped)".to_string();
             conc::run_many(&p, &mut shard);
+            write_out(&args, &shard);
+        }
+        "solo" => {
+            let mut shard = report::Shard::new("mq-solo");
+            shard.rule = "case = one try operation executed by the only running thread while every other thread is frozen at a hook site; distinct = hash(operation, result, multiset of sites the other threads are frozen at, flavour); non-trivial = at least one other thread is frozen in the middle of an operation (not at an entry site)".to_string();
+            solo::run_many(args.u64("seed", 1), args.u64("runs", 100), args.u64("budget-ms", 0), args.flag("small"), &mut shard);
+            write_out(&args, &shard);
+        }
+        "sendsync" => {
+            let mut shard = report::Shard::new("mq-sendsync");
+            shard.rule = "case = one (handle type, payload class, closure class) instantiation whose Send/Sync answers are read from the compiler at run time; non-trivial = a cell whose required answer is 'not Send'".to_string();
+            sendsync::run(&mut shard);
             write_out(&args, &shard);
         }
         "churn" => {
